@@ -224,6 +224,12 @@ impl<'a> AnyCache<'a> {
     pub(crate) fn reload_untyped(self, id: SharedString, typ: Type) -> Option<Dependencies> {
         let handle = self.get_cached_untyped(&id, typ)?;
 
+        // Values that were not loaded with hot-reloading enabled (eg added
+        // with `get_or_insert`) must never be rewritten.
+        if !handle.is_reloadable() {
+            return None;
+        }
+
         let load_asset = || (typ.inner.load)(self, id);
         let (entry, deps) = if let Some(reloader) = self.reloader() {
             records::record(reloader, load_asset)
@@ -402,7 +408,8 @@ pub(crate) trait CacheExt: Cache {
     #[cold]
     fn add_any<T: Storable>(&self, id: &str, asset: T) -> &UntypedHandle {
         let id = SharedString::from(id);
-        let entry = CacheEntry::new(asset, id, || self._has_reloader());
+        // Assets added via `get_or_insert` are never reloaded
+        let entry = CacheEntry::new(asset, id, || false);
 
         self.insert(entry)
     }
